@@ -105,6 +105,9 @@ def _sample(rng, tid):
     if rng.chance(0.1):
         extra.append(_fault(rng))
     op = worlds.op_sample(rng, flags=flags, thd=thd, uhdr=uhdr, udata=rows, extra=extra)
+    if uhdr is not None and rng.chance(0.15):
+        # a second stack header somewhere in the window (before, between or after the data records): the first one counts
+        op['in'].insert(rng.randrange(len(op['in']) + 1), {'k': 'one', 'name': 'PERF_STK_UHdr', 'q': 0, 'a': [rng.randrange(0, 512), rng.randrange(0, 9), 0, 0]})
     for sub in op['in']:
         if sub.get('k') == 'one' and sub.get('name', '').startswith('PERF_') and rng.chance(0.15):
             sub['q'] = 3          # an ALL-qualified nested record is still that record
